@@ -120,7 +120,7 @@ impl Node {
 //@ as: fn ensure_parent_height_requirements(&self, ahh: &mut AdjustHeightsHeap, original_child: &NodeRef, original_parent: &NodeRef)
 //@ attr: #[verifier::exec_allows_no_decreases_clause]
 //@ rule R5: `self.parents.borrow()` => `self.parents()` x1
-//@ props: C19
+//@ props: C11 C19
 //@ contract:
 //@|     requires forall|a: &NodeRef, b: &NodeRef| walk_originals(a, b) <==> (a == original_child && b == original_parent),
 //@|     // [every-parent-edge-is-checked-against-the-originals-of-this-walk-in-order]
@@ -137,7 +137,7 @@ impl Node {
 //@ tracing: yes
 //@ rule R5 re: `if let Some\(Kind::BindLhsChange \{ bind, \.\. \}\) = self\.kind\(\)` => `if let Some(vx_rhs_nodes) = self.rhs_nodes_if_bind_lhs_change()` x1
 //@ rule R5: `let all = bind.all_nodes_created_on_rhs.borrow();` => `let all = vx_rhs_nodes;` x1
-//@ props: C19
+//@ props: C11 C19
 //@ contract:
 //@|     requires forall|a: &NodeRef, b: &NodeRef| walk_originals(a, b) <==> (a == oc && b == op),
 //@|     // [every-bind-scope-edge-is-checked-against-the-originals-of-this-walk-in-order]
@@ -155,7 +155,7 @@ impl AdjustHeightsHeap {
 //@ attr: #[verifier::exec_allows_no_decreases_clause]
 //@ tracing: yes
 //@ cfg: release
-//@ props: C19
+//@ props: C11 C19
 //@ contract:
 //@|     requires forall|a: &NodeRef, b: &NodeRef| walk_originals(a, b) <==> (*a == original_child && *b == original_parent),
 //@|     // [the-walk-starts-at-the-new-edge-and-hands-the-same-originals-to-every-step]  (release variant: the four
@@ -180,7 +180,7 @@ impl Node {
 //@ rule R5: `let rch = &state.recompute_heap;` => `` x1
 //@ rule R5: `ah_heap.adjust_heights(rch, ` => `ah_heap.adjust_heights(&state.recompute_heap, ` x1
 //@ rule R8: `state.recompute_heap.insert(` => `state.heap.insert(` x*
-//@ props: C19 C05
+//@ props: C05 C06 C11 C19
 //@ contract:
 //@|     requires
 //@|         node_necessary(parent_ref),
@@ -201,7 +201,7 @@ impl Node {
 //@ rule R5: `let rch = &state.recompute_heap;` => `` x1
 //@ rule R5: `ah_heap.adjust_heights(rch, ` => `ah_heap.adjust_heights(&state.recompute_heap, ` x1
 //@ rule R8: `state.recompute_heap.insert(` => `state.heap.insert__reached(` x*
-//@ props: C05 C06
+//@ props: C05 C06 C11 C19
 //@ contract:
 //@|     requires
 //@|         node_necessary(parent_ref),
@@ -231,7 +231,7 @@ impl BindNodeS {
 //@ name: height
 //@ as: fn height(&self) -> (r: i32)
 //@ cells: lhs_change, main
-//@ props: C19 C11
+//@ props: C11 C19
 //@ contract:
 //@|     requires mdw_target(&self.lhs_change) is Some,
 //@|     ensures r == node_height(&*mdw_target(&self.lhs_change).unwrap()), // [a-bind-scope-is-as-high-as-its-lhs-change-node-so-rhs-nodes-sit-above-it]
@@ -243,7 +243,7 @@ impl BindNodeS {
 //@ name: is_valid
 //@ as: fn is_valid(&self) -> (r: bool)
 //@ cells: lhs_change, main
-//@ props: C19
+//@ props: C11 C19
 //@ contract:
 //@|     ensures r == (mdw_target(&self.main) is Some && node_valid(&*mdw_target(&self.main).unwrap())), // [a-bind-scope-is-valid-iff-its-main-node-is-alive-and-valid]
 //@end
@@ -254,7 +254,7 @@ impl BindNodeS {
 //@ name: is_necessary
 //@ as: fn is_necessary(&self) -> (r: bool)
 //@ cells: lhs_change, main
-//@ props: C19 C05
+//@ props: C05 C11 C19
 //@ contract:
 //@|     ensures r == (mdw_target(&self.main) is Some && node_necessary(&*mdw_target(&self.main).unwrap())), // [a-bind-scope-is-necessary-iff-its-main-node-is]
 //@end
@@ -266,7 +266,7 @@ impl BindNodeS {
 //@ as: fn add_node(&mut self, node: WeakNode)
 //@ cells: all_nodes_created_on_rhs
 //@ tracing: yes
-//@ props: C19
+//@ props: C11 C19
 //@ contract:
 //@|     ensures final(self).all_nodes_created_on_rhs@ == old(self).all_nodes_created_on_rhs@.push(node), // [every-node-created-in-the-scope-is-remembered-for-invalidation-and-height-adjustment]
 //@end
